@@ -228,7 +228,7 @@ Proof.
         destruct (same_ctl_trans _ _ _ H0 H1) as (Ep1 & _ & _ & _ & _ & _ & Eps1 & _).
         destruct (same_ctl_trans _ _ _ H0 (same_ctl_trans _ _ _ H1 H2)) as (Ep & _ & _ & _ & _ & _ & Eps & _).
         st_simpl.
-        destruct (rep && (f_len f <=? max_buffered)); unfold reader_dies;
+        destruct (rep && (f_len f <=? max_buffered)); [|eof_cases]; unfold reader_dies;
           (apply (pre_inv_passed_step s); [assumption | st_simpl_goal; assumption | right; exists f; st_simpl_goal; assumption | assumption]).
   - (* Close *) apply (pre_inv_fields s); try assumption; unfold step_close; destruct (closed s); reflexivity.
   - (* ConnStart *) unfold step_conn_start. destruct (phase s) eqn:Hp; try assumption.
@@ -351,7 +351,7 @@ Proof. (* (closed is handled by [step_closed_mono] below) *)
       destruct (take_waiter cfg false (length (peer_sent s)) f _) as [s2 rep].
       destruct H as ((A1 & B1 & _) & (A & B & _)).
       pose proof (note_close_resp_same_ctl f (set_peer_sent (peer_sent s ++ [f]) s)) as (A0 & B0 & _).
-      st_simpl. destruct (rep && _); unfold reader_dies; st_simpl_goal; split; congruence.
+      st_simpl. destruct (rep && _); [|eof_cases]; unfold reader_dies; st_simpl_goal; split; congruence.
   - unfold step_close. destruct (closed s); split; reflexivity.
   - unfold step_shutdown_close, step_close. destruct (lookup c (callers s)) as [[r|r|r i|r res0]|]; try (split; reflexivity).
     destruct res0; try (split; reflexivity). destruct (_ && _); [destruct (closed _)|]; split; reflexivity.
@@ -408,7 +408,7 @@ Proof.
       destruct (take_waiter cfg false (length (peer_sent s)) f _) as [s2 rep].
       destruct H as ((_ & _ & _ & _ & _ & _ & _ & _ & _ & E1) & (_ & _ & _ & _ & _ & _ & _ & _ & _ & E)).
       pose proof (note_close_resp_same_ctl f (set_peer_sent (peer_sent s ++ [f]) s)) as (_ & _ & _ & _ & _ & _ & _ & _ & _ & E0).
-      st_simpl. destruct (rep && _); unfold reader_dies; st_simpl_goal; congruence.
+      st_simpl. destruct (rep && _); [|eof_cases]; unfold reader_dies; st_simpl_goal; congruence.
   - unfold step_close. rewrite Hc. assumption.
   - unfold step_conn_start. destruct (phase s); assumption.
   - unfold step_conn_first. destruct (phase s); try assumption. cbv zeta.
